@@ -881,6 +881,72 @@ func oracleC10(c e2eCase, run *e2eRun) error {
 	return nil
 }
 
+// oracleC11: what is left behind in the operating system when the process has ended.
+func oracleC11(c e2eCase, run *e2eRun) error {
+	if run.Hung != "" {
+		return nil
+	}
+	d := func() string { return e2eDesc(c, run) }
+	type st struct {
+		iface          string
+		leaves, closes int
+	}
+	conns := map[int]*st{}
+	openNow := map[string]int{}
+	sets := map[string][]bool{}
+	gets := map[string]int{}
+	for _, e := range run.Events {
+		switch e.Ev {
+		case "open":
+			if openNow[e.Iface] > 0 {
+				return verifkit.Violf("C11main/two-connections-open", "%q: a connection is opened while another one is still open\n%s", e.Iface, d())
+			}
+			openNow[e.Iface]++
+			conns[e.Conn] = &st{iface: e.Iface}
+		case "leave":
+			if cn := conns[e.Conn]; cn != nil {
+				cn.leaves++
+			}
+		case "close":
+			if cn := conns[e.Conn]; cn != nil {
+				cn.closes++
+				openNow[cn.iface]--
+			}
+		case "set-autoconf":
+			sets[e.Iface] = append(sets[e.Iface], e.Value)
+		case "get-autoconf":
+			gets[e.Iface]++
+		}
+	}
+	for id, cn := range conns {
+		if cn.closes != 1 || cn.leaves > 1 {
+			return verifkit.Violf("C11main/cleanup-count", "connection %d of %q: closed %d times, left the group %d times when the process had ended\n%s", id, cn.iface, cn.closes, cn.leaves, d())
+		}
+	}
+	per := map[string]int{}
+	for _, cn := range conns {
+		per[cn.iface]++
+	}
+	for i, ri := range run.Ifaces {
+		if !ri.Advertise {
+			if len(sets[ri.Name]) > 0 {
+				return verifkit.Violf("C11main/autoconf-touched", "%q does not advertise but its autoconf setting was written: %v\n%s", ri.Name, sets[ri.Name], d())
+			}
+			continue
+		}
+		// per connection: disabled at dial time, the previous value restored at clean-up
+		orig := i%2 == 0
+		var want []bool
+		for k := 0; k < per[ri.Name]; k++ {
+			want = append(want, false, orig)
+		}
+		if fmt.Sprint(sets[ri.Name]) != fmt.Sprint(want) {
+			return verifkit.Violf("C11main/autoconf-not-restored", "%q (autoconf %v before): writes %v, want %v for %d connection(s)\n%s", ri.Name, orig, sets[ri.Name], want, per[ri.Name], d())
+		}
+	}
+	return nil
+}
+
 // oracleC08: the final advertisement.
 func oracleC08(c e2eCase, run *e2eRun) error {
 	if c.PortBusy || c.Early || run.Hung != "" || run.FailIface != "" {
@@ -1410,6 +1476,14 @@ func TestVerif_C10main(t *testing.T) {
 	prop := e2eProp(k, "C10", oracleC10, oracleC20)
 	k.Regress(t, func(sub string, raw json.RawMessage) error { return verifkit.Decode(raw, prop) })
 	verifkit.Rapid(k, t, "whole-process", k.N(24, 1200), e2eGenMode(false, true), prop)
+}
+
+func TestVerif_C11main(t *testing.T) {
+	k := verifkit.Start(t, "C11")
+	k.WholeProcess = true
+	prop := e2eProp(k, "C11", oracleC11)
+	k.Regress(t, func(sub string, raw json.RawMessage) error { return verifkit.Decode(raw, prop) })
+	verifkit.Rapid(k, t, "whole-process", k.N(24, 1200), e2eGenMode(false, false), prop)
 }
 
 func TestVerif_C20main(t *testing.T) {
